@@ -433,8 +433,12 @@ func (matrix *DenseReal32Matrix) MagicT() MagicMatrix {
     tmp2 : matrix.tmp1 }
 }
 func (matrix *DenseReal32Matrix) ResetDerivatives() {
-  for i := 0; i < len(matrix.values); i++ {
-    matrix.values[i].ResetDerivatives()
+  // only the elements of this (possibly sliced) view
+  n, m := matrix.Dims()
+  for i := 0; i < n; i++ {
+    for j := 0; j < m; j++ {
+      matrix.AT(i, j).ResetDerivatives()
+    }
   }
 }
 func (matrix *DenseReal32Matrix) AsMagicVector() MagicVector {
@@ -472,9 +476,14 @@ func (matrix *DenseReal32Matrix) ElementType() ScalarType {
 }
 // Treat all elements as variables for automatic differentiation. This method should only be called on a single vector or matrix. If multiple matrices should be treated as variables, then a single matrix must be allocated first and sliced after calling this method.
 func (matrix *DenseReal32Matrix) Variables(order int) error {
-  for i, _ := range matrix.values {
-    if err := matrix.values[i].SetVariable(i, len(matrix.values), order); err != nil {
-      return err
+  // number the elements of the matrix as it is seen through this (possibly
+  // sliced or transposed) view, not the elements of the storage block
+  n, m := matrix.Dims()
+  for i := 0; i < n; i++ {
+    for j := 0; j < m; j++ {
+      if err := matrix.AT(i, j).SetVariable(i*m + j, n*m, order); err != nil {
+        return err
+      }
     }
   }
   return nil
